@@ -105,6 +105,7 @@ def mech(kind, w, design=None):
   if kind == "output-differs-from-pymtl-simulation":
     if w.get("component_list_with_different_classes"): return "yosys-component-list-elements-instantiated-with-class-of-element-0"
     if c03_sv.literal_branch_ifexp_meets_int_semantics(src): return "ifexp-with-literal-branch-evaluates-to-python-int-in-simulation"
+    if c03_sv.loopvar_modulo_index(src): return "loop-variable-arithmetic-in-index-evaluated-at-index-width"
     if c03_sv.const_only_nonring_subexpr(src): return "const-subexpression-narrowed-before-nonring-operator"
     if c03_sv.duplicate_class_names(src): return "same-class-name-and-params-share-one-module"
   return None
